@@ -1,9 +1,10 @@
 (* C12 — queries parse as documented and return exactly the matching bugs, ordered. Property theorems only.
    Models: Query.v (query/lexer.go, parser.go), QueryRender.v (the language of doc/queries.md), QueryEval.v
-   (cache/filter.go, identity_excerpt.go Match, the sorters and RepoCacheBug.Query). *)
+   (cache/filter.go, identity_excerpt.go Match, the sorters and RepoCacheBug.Query), QueryCli.v (commands/bug/bug.go:
+   from the argv of `git bug` to the query). *)
 From Coq Require Import List Arith NArith Bool Sorting.Sorted Sorting.Permutation.
 Import ListNotations.
-From GB Require Import Query Lex QueryRender QueryEval.
+From GB Require Import Query Lex QueryRender QueryEval QueryCli.
 Local Open Scope N_scope.
 
 (* ---- round trip ---- *)
@@ -42,15 +43,33 @@ Theorem C12_rejects_unmatched_quote s : unmatched_quote s = true -> parse s = No
 Proof. exact (reject_unmatched_quote s). Qed.
 Print Assumptions C12_rejects_unmatched_quote.
 
-Theorem C12_rejects_colon_edge s fields f : split_func is_space s = Some fields -> In f fields ->
+Theorem C12_rejects_colon_edge s fields f : split_func false is_space s = Some fields -> In f fields ->
   has_prefix_colon f || has_suffix_colon f = true -> parse s = None.
 Proof. exact (reject_colon_edge s fields f). Qed.
 Print Assumptions C12_rejects_colon_edge.
 
-Theorem C12_rejects_too_many_separators s fields f chunks : split_func is_space s = Some fields -> In f fields ->
-  split_func is_colon f = Some chunks -> (3 < length chunks)%nat -> parse s = None.
+Theorem C12_rejects_too_many_separators s fields f chunks : split_func false is_space s = Some fields -> In f fields ->
+  split_func true is_colon f = Some chunks -> (3 < length chunks)%nat -> parse s = None.
 Proof. exact (reject_too_many_separators s fields f chunks). Qed.
 Print Assumptions C12_rejects_too_many_separators.
+
+(* an empty qualifier, sub-qualifier or value in the middle: nothing between two colons (status::open, title:::x,
+   metadata::k:v, metadata:k::v); at the edges it is C12_rejects_colon_edge; an empty value is written "" *)
+Theorem C12_rejects_empty_chunk s fields f chunks : split_func false is_space s = Some fields -> In f fields ->
+  split_func true is_colon f = Some chunks -> In [] chunks -> parse s = None.
+Proof. exact (reject_empty_chunk s fields f chunks). Qed.
+Print Assumptions C12_rejects_empty_chunk.
+
+(* the lexer as it was dropped empty chunks, its own "empty qualifier or value" test between colons could not fire:
+   status::open was read as status:open *)
+Theorem C12_empty_chunk_accepted_refuted : exists s, malformed s /\ parse_lenient s <> None.
+Proof. exact empty_chunk_lenient_refuted. Qed.
+Print Assumptions C12_empty_chunk_accepted_refuted.
+
+(* the repair takes nothing away from the documented language: on a rendered query the two lexers agree *)
+Theorem C12_tokenize_any_lexer strict its : wf_lex its = true -> tokenize_k strict (render its) = Some (map token_of its).
+Proof. exact (tokenize_k_render strict its). Qed.
+Print Assumptions C12_tokenize_any_lexer.
 
 Theorem C12_rejects_unknown_qualifier s ts k v : tokenize s = Some ts -> In (TKV k v) ts -> known_key k = false -> parse s = None.
 Proof. exact (reject_unknown_qualifier s ts k v). Qed.
@@ -141,12 +160,32 @@ Theorem C12_case_insensitive_title lower t t' b : lower_s lower t = lower_s lowe
 Proof. exact (ci_title lower t t' b). Qed.
 Print Assumptions C12_case_insensitive_title.
 
-(* full-text terms: any-of; a term is found in a bug when its words (cut at U+0020) occur in a row in one indexed text *)
-Theorem C12_search_spec q b : found q b = true <->
-  (q_search q = [] \/ exists t, In t (q_search q) /\ term_words t <> [] /\
-     exists text pre post, In text (b_texts b) /\ text = pre ++ term_words t ++ post).
-Proof. exact (found_spec q b). Qed.
+(* full-text terms: any-of; a term is found in a bug when its words (lower-cased, cut at every code point that is no
+   letter and no digit) occur in a row in one indexed text *)
+Theorem C12_search_spec lower q b : found lower q b = true <->
+  (q_search q = [] \/ exists t, In t (q_search q) /\ term_words lower t <> [] /\
+     exists text pre post, In text (b_texts b) /\ text = pre ++ term_words lower t ++ post).
+Proof. exact (found_spec lower q b). Qed.
 Print Assumptions C12_search_spec.
+
+(* a search term is text, not an expression: whatever stands around a word and is no letter and no digit (-crash,
+   crash~2, (crash), "crash", +crash) does not change what is looked for, and such characters alone (->, >=, ^, /)
+   look for nothing; in particular evaluation is defined for them (C12_eval_total). The index as it was read terms
+   as bleve query strings (syntax errors, negation, field queries): observed by the check, not modelled. *)
+Theorem C12_search_term_is_text lower (Hl : forall r, is_word_rune (lower r) = is_word_rune r) p w s :
+  forallb (fun r => negb (is_word_rune r)) p = true -> forallb (fun r => negb (is_word_rune r)) s = true ->
+  w <> [] -> forallb is_word_rune w = true -> term_words lower (p ++ w ++ s) = [lower_s lower w].
+Proof. exact (term_words_decorated lower Hl p w s). Qed.
+Print Assumptions C12_search_term_is_text.
+
+Theorem C12_search_operators_alone lower (Hl : forall r, is_word_rune (lower r) = is_word_rune r) p :
+  forallb (fun r => negb (is_word_rune r)) p = true -> term_words lower p = [].
+Proof. exact (term_words_operators lower Hl p). Qed.
+Print Assumptions C12_search_operators_alone.
+
+(* the hypothesis on the lower-casing holds for the one the check uses *)
+Example C12_lower_keeps_words r : is_word_rune (lower_rune r) = is_word_rune r.
+Proof. exact (lower_rune_word r). Qed.
 
 (* ---- evaluation ---- *)
 
@@ -172,6 +211,53 @@ Print Assumptions C12_order_meaning.
 Theorem C12_eval_total lower s q bugs : parse s = Some q -> eval lower q bugs <> None.
 Proof. exact (eval_total lower s q bugs). Qed.
 Print Assumptions C12_eval_total.
+
+(* ---- the command line: `git bug [flags] [QUERY...]` ---- *)
+
+(* every argv element is a piece of the documented language given verbatim (quotes protected from the shell:
+   title:"Typo in string", or several qualifiers in one element) or one qualifier whose quotes the shell removed
+   (title:Typo in string): the command hands the parser a string that parses to what the elements denote *)
+Theorem C12_cli_roundtrip args : args <> [] -> Forall (fun a => wf_arg a = true) args -> wf_items (flat_map arg_items args) = true ->
+  parse (repair true (map arg_str args)) = Some (denote (flat_map arg_items args)).
+Proof. exact (cli_parse args). Qed.
+Print Assumptions C12_cli_roundtrip.
+
+(* the command as it was put quotes around the pieces of an element that has its quotes already *)
+Theorem C12_cli_roundtrip_pinned_refuted : exists args, args <> [] /\ Forall (fun a => wf_arg a = true) args /\
+  wf_items (flat_map arg_items args) = true /\
+  parse (repair false (map arg_str args)) <> Some (denote (flat_map arg_items args)).
+Proof. exact cli_parse_pinned_refuted. Qed.
+Print Assumptions C12_cli_roundtrip_pinned_refuted.
+
+(* sorting: a flag that is given wins, then the sort qualifier of the query, then the defaults (creation, asc) *)
+Theorem C12_cli_sort q f q' : complete true q f = Some q' ->
+  Some (q_orderby q') = (match fl_by f with Some v => by_of v | None => Some (if q_sorted q then q_orderby q else 2) end) /\
+  Some (q_dir q') = (match fl_dir f with Some v => dir_of v | None => Some (if q_sorted q then q_dir q else 1) end).
+Proof. exact (complete_sort q f q'). Qed.
+Print Assumptions C12_cli_sort.
+
+(* as it was, the default values of --by / --direction replaced the sort qualifier of the query *)
+Theorem C12_cli_sort_pinned_refuted : exists q q', q_sorted q = true /\ complete false q no_flags = Some q' /\
+  (q_orderby q', q_dir q') <> (q_orderby q, q_dir q).
+Proof. exact complete_sort_pinned_refuted. Qed.
+Print Assumptions C12_cli_sort_pinned_refuted.
+
+(* the filter flags add their values after those of the query; --metadata key=value is cut at the first = *)
+Theorem C12_cli_filters fixed q f q' : complete fixed q f = Some q' ->
+  q_search q' = q_search q /\ q_author q' = q_author q ++ fl_author f /\ q_actor q' = q_actor q ++ fl_actor f /\
+  q_participant q' = q_participant q ++ fl_participant f /\ q_label q' = q_label q ++ fl_label f /\ q_title q' = q_title q ++ fl_title f /\
+  (exists sts, all_some (map status_of (fl_status f)) = Some sts /\ q_status q' = q_status q ++ sts) /\
+  (exists ms, all_some (map (if fixed then cut_first else cut_pinned) (fl_meta f)) = Some ms /\ q_meta q' = q_meta q ++ ms).
+Proof. exact (complete_filters fixed q f q'). Qed.
+Print Assumptions C12_cli_filters.
+
+Theorem C12_cli_metadata_flag k v : existsb (N.eqb eq_sign) k = false -> cut_first (k ++ eq_sign :: v) = Some (k, v).
+Proof. exact (meta_flag_cut k v). Qed.
+Print Assumptions C12_cli_metadata_flag.
+
+Theorem C12_cli_metadata_flag_pinned_refuted : exists k v, existsb (N.eqb eq_sign) k = false /\ cut_pinned (k ++ eq_sign :: v) <> Some (k, v).
+Proof. exact meta_flag_pinned_refuted. Qed.
+Print Assumptions C12_cli_metadata_flag_pinned_refuted.
 
 (* ---- non-vacuity ---- *)
 
